@@ -21,7 +21,7 @@ func init() {
 			"R2 decode-once: the module's only percent-decoder is internal/url.queryUnescape, reached only through ParseQuery, whose call sites are frozen (query string, urlencoded body); ProcessURI hands the raw query to it and no net/url decoding function is applied to request data; " +
 			"R3 failures are flagged: ProcessURI records a parse failure, and on every limit branch of the four body entry points the INBOUND/OUTBOUND_DATA_ERROR flag is set before returning (body-processor failures: C20.R4); R4 no silent drop at the argument limit (every path that skips the Add must set an error variable or interrupt); " +
 			"R5 multi-valued carriers: ingestion never funnels name/value pairs through a single-valued map or an overwriting collection write; R6 look-ahead reads in the URL/cookie/body parsers are length-guarded (A9 shapes); " +
-			"R7 ingestion loops are complete (no early exit), a query-string pair that has been split into name and value is always stored (only an empty pair is skipped, before the split), and the JSON key buffer is rewound on every path of the member callback; R8 the body processor is selected from the Content-Type header case-insensitively: every condition on the header value that leads to a reqbodyProcessor assignment looks at a case-folded form of it (media types are case-insensitive; a case-sensitive sibling leaves a whole body uninspected without any error), and the cookie parser strips optional whitespace (SP/HTAB) only.",
+			"R7 ingestion loops are complete (no early exit), a query-string pair that has been split into name and value is always stored (only an empty pair is skipped, before the split), and the JSON key buffer is rewound on every path of the member callback; R8 the body processor is selected from the Content-Type header case-insensitively: every condition on the header value that leads to a reqbodyProcessor assignment looks at a case-folded form of it (media types are case-insensitive; a case-sensitive sibling leaves a whole body uninspected without any error), and the cookie parser strips optional whitespace (SP/HTAB) only. R2 also: REQUEST_URI_RAW and REQUEST_LINE are set from the uri parameter of ProcessURI as received, not from a string cut or re-assembled before.",
 		NotDecided: []string{
 			"byte-exactness of each decoder and of third-party parsers (mime/multipart, encoding/xml, gjson)",
 			"exact values of derived variables (REQUEST_BASENAME, FILES_COMBINED_SIZE, ...)",
